@@ -423,6 +423,83 @@ pub fn add_subs(subs: &mut Vec<Sub>, sz: Sz) {
         );
     }
 
+    // --- sequences of call frame instructions (state stack / rule storage at capacity)
+    {
+        // remember_state, restore_state, offset r1, offset r2, def_cfa r7+8, restore r1, undefined r3
+        const ALPHA: [&[u8]; 7] = [&[0x0a], &[0x0b], &[0x81, 0x01], &[0x82, 0x02], &[0x0c, 0x07, 0x08], &[0xc1], &[0x07, 0x03]];
+        let maxlen = sz.pick(5u32, 5, 6);
+        let total = mcx::space::seq_count(7, 0, maxlen);
+        subs.push(
+            Sub::new(&sz.tag(&format!("cfi-instruction-sequences-len<={}", maxlen)), total, "every sequence of the stated length over {remember_state, restore_state, offset r1, offset r2, def_cfa, restore r1, undefined r3} as the instructions of an FDE and as the initial instructions of a CIE (followed by an FDE that advances and restores the state), in .debug_frame and .eh_frame: all CFI drivers (rows on the heap context of 4 rows and on fixed storage of 1 and 2 rows/rules, unwind_info_for_address, conversion)", move |ctx, i| {
+                let seq = mcx::space::seq_decode(7, 0, maxlen, i);
+                let mut body = vec![];
+                for &k in &seq {
+                    body.extend_from_slice(ALPHA[k]);
+                }
+                let g = G { big: false, f64_: false, asz: 8 };
+                let cfg = Cfg { big: false, address_size: 8, format64: false, version: 4, aarch64: false };
+                let ss = frame_with_body(g, &body);
+                run_case(ctx, &|| format!("cfi instructions = {}", mcx::hex(&body)), &ss, 19, cfg, Plan::Slice, 0);
+                let ss = eh_frame_with_body(g, &body);
+                run_case(ctx, &|| format!("eh cfi instructions = {}", mcx::hex(&body)), &ss, 20, cfg, Plan::Slice, 0);
+                if ctx.want_sample() {
+                    ctx.sample(format!("cfi instructions {}", mcx::hex(&body)));
+                }
+            })
+            .flavours(sz.fl()),
+        );
+    }
+
+    // --- line number program header parameters
+    {
+        let ranges: Vec<u8> = sz.pick((0..=16u8).chain([127, 128, 129, 254, 255]).collect(), (0..=255u8).collect(), (0..=255u8).collect());
+        let nr = ranges.len() as u64;
+        // (min_inst, max_ops) pairs for the second half of the space
+        let mins = [0u8, 1, 2, 4, 255];
+        let maxs = [0u8, 1, 2, 255];
+        let part1 = 3 * 256 * nr;
+        let part2 = 3 * 5 * 4 * 256;
+        subs.push(
+            Sub::new(&sz.tag("line-header-parameters"), part1 + part2, &format!("line program seeds of version 2, 4 and 5 with (a) every line_base 0x00..=0xff x line_range in {} values (all 256 in the larger tiers), (b) minimum_instruction_length {{0,1,2,4,255}} x maximum_operations_per_instruction {{0,1,2,255}} x every opcode_base: parse, header accessors, rows, sequences, conversion with and without a unit", nr), move |ctx, i| {
+                let g = G { big: false, f64_: false, asz: 8 };
+                let (version, patch): (u16, Vec<(usize, u8)>) = if i < part1 {
+                    let mut m = Mix(i);
+                    let v = [2u16, 4, 5][m.take(3) as usize];
+                    let base = m.take(256) as u8;
+                    let range = ranges[m.take(nr) as usize];
+                    (v, vec![(3, base), (4, range)])
+                } else {
+                    let mut m = Mix(i - part1);
+                    let v = [2u16, 4, 5][m.take(3) as usize];
+                    let mi = *m.pick(&mins);
+                    let ma = *m.pick(&maxs);
+                    let ob = m.take(256) as u8;
+                    (v, vec![(0, mi), (1, ma), (5, ob)])
+                };
+                let mut ss = if version == 5 { seeds::seed_line_v5(g) } else { seeds::seed_line_legacy(g, version) };
+                // field k of {min_inst, max_ops, default_is_stmt, line_base, line_range, opcode_base}
+                let first = if version == 5 { 12 } else { 10 };
+                for (k, val) in patch.iter().copied() {
+                    let off = if version < 4 {
+                        if k == 1 {
+                            continue;
+                        }
+                        first + k - if k > 1 { 1 } else { 0 }
+                    } else {
+                        first + k
+                    };
+                    ss.line[off] = val;
+                }
+                let cfg = Cfg { big: false, address_size: 8, format64: false, version, aarch64: false };
+                run_case(ctx, &|| format!("line header v{} fields {:?}: {}", version, patch, mcx::hex(&ss.line[..ss.line.len().min(40)])), &ss, 5, cfg, Plan::Slice, 0);
+                if ctx.want_sample() {
+                    ctx.sample(format!("line v{} patched fields {:?}", version, patch));
+                }
+            })
+            .flavours(sz.fl()),
+        );
+    }
+
     // --- depth / length stressors: one sub per stressor so that a crash or hang is
     // identified by the stressor's name
     {
